@@ -70,9 +70,9 @@ def run(tier, seed, replay=None):
                         "only PythonCryptoEndpoint (not the Rust endpoint fast path); e2e (hidden-service) circuits and "
                         "test-request cells are not driven", "payload sizes {0, 1, 100, 900} (+1400 thorough), not all 0..MTU"]
     rng = random.Random(seed)
-    K.spec_controls(ctx, [("Onion_c04_noaead.cfg", "ExitIntegrity",
-                           "spec without AEAD authentication delivers altered data (ExitIntegrity violated)")])
-    K.model_check(ctx, ["Onion_c04_g3.cfg"] + (["Onion_c04_g12.cfg"] if tier == "thorough" else []))
+    bg = K.Background(["Onion_c04_g3.cfg"] + (["Onion_c04_g12.cfg"] if tier == "thorough" else []),
+                      [("Onion_c04_noaead.cfg", "ExitIntegrity",
+                        "spec without AEAD authentication delivers altered data (ExitIntegrity violated)")])
     nseeds = 4 if tier == "quick" else 20
     steps = 160 if tier == "quick" else 400
     base = seed * 1000
@@ -102,6 +102,7 @@ def run(tier, seed, replay=None):
     K.validate_family(ctx, PID, walks, "line4", hdr, "tamper-walk", NONTRIVIAL)
     ctx.note("tamper_walk", {"walks": len(walks), "events": sum(len(t["events"]) for t in walks),
                              "altered_copies": sum(1 for t in walks for e in t["events"] if e["a"] in ("Tamper", "TamperHeader", "Splice"))})
+    bg.collect(ctx)
     ctx.cov["exhaustive"] = False
     return ctx.finish()
 
